@@ -299,7 +299,7 @@ def main(argv):
     sym_jobs = [j for j in sym_jobs if harness.PROOFS[j[1]].shards <= 1]
     # every job is awaited with a time budget: a worker that dies abruptly (killed, interpreter crash) or hangs would make a
     # plain Pool.map wait for ever; such a job is reported as LOST (proof undecided / family error), never as a verdict
-    budget = float(os.environ.get("PYVC_T_JOB_S", "900" if tier == "quick" else "14400"))
+    budget = float(os.environ.get("PYVC_T_JOB_S", "600" if tier == "quick" else "14400"))
 
     def lost_sym(job, why):
         return dict(proof=job[1], crash="engine fault: %s" % why, summary=[], paths=0, covers=[], undecided=None, wall_s=0.0,
